@@ -18,6 +18,7 @@ type spec struct {
 	B    *bSpec `json:"b,omitempty"`
 	C    *cSpec `json:"c,omitempty"`
 	D    *dSpec `json:"d,omitempty"`
+	E    *eSpec `json:"e,omitempty"`
 }
 
 func (s spec) caseText() string {
@@ -30,6 +31,8 @@ func (s spec) caseText() string {
 		return s.C.caseText()
 	case s.D != nil:
 		return s.D.caseText()
+	case s.E != nil:
+		return s.E.caseText()
 	}
 	return "?"
 }
@@ -50,6 +53,8 @@ func evalSpec(s spec) verdict {
 		return evalC(*s.C)
 	case s.D != nil:
 		return evalD(*s.D)
+	case s.E != nil:
+		return evalE(*s.E)
 	}
 	return verdict{class: "machinery", detail: "empty case"}
 }
@@ -285,6 +290,9 @@ func runSmall(c *common.Ctx, res *common.Result, col *collector) {
 				}
 			}
 		}
+	}
+	for _, ec := range eCases {
+		specs = append(specs, spec{Part: "E", E: &eSpec{Name: ec.name}})
 	}
 	verdicts := make([]verdict, len(specs))
 	common.ParallelFor(c, len(specs), func(i int) {
